@@ -93,6 +93,10 @@ func (x *Exec) evalClauseValue(st *State, cl *Clause, pos token.Pos) *Term {
 	return v.scalar()
 }
 
+// softMiss unwinds the evaluation of an "ensures internal" clause that names a local which is
+// not in scope at the exit being checked.
+type softMiss struct{}
+
 func (x *Exec) evalSpecIdent(st *State, id *ast.Ident) *Value {
 	switch id.Name {
 	case "true":
@@ -122,6 +126,10 @@ func (x *Exec) evalSpecIdent(st *State, id *ast.Ident) *Value {
 	}
 	if obj := x.eng.pkg.Types.Scope().Lookup(id.Name); obj != nil {
 		return x.valueOfObj(st, obj, id.Name)
+	}
+	if x.softNames {
+		// a local of an inner block, not in scope at this exit: the caller skips the clause here
+		panic(softMiss{})
 	}
 	x.fail("spec: unresolved name %q", id.Name)
 	return x.constInt(0)
